@@ -29,7 +29,9 @@ def dense(M):
 
 def build(name):
     if name == 'smib':
-        ss = systems.smib(n_toggle=2, n_alter=1, n_fault=1)
+        ss = systems.smib(n_toggle=2, n_alter=1, n_fault=1, setup=False)
+        ss.add('Alter', dict(idx='AT0', model='GENCLS', dev='GEN', src='M', attr='v', method='*', amount=1.0, t=-1, u=0))
+        ss.setup()
     else:
         ss = systems.load_case('kundur/kundur_full.xlsx', setup=False)
         # replace the stock event by harness-controlled ones
@@ -37,6 +39,11 @@ def build(name):
         ss.add('Toggle', dict(idx='TX0', model='Line', dev='Line_8', t=-1, u=0))
         ss.add('Toggle', dict(idx='TX1', model='Line', dev='Line_8', t=-1, u=0))
         ss.add('Fault', dict(idx='FX0', bus=ss.Bus.idx.v[7], tf=-1, tc=-1, xf=0.05, u=0))
+        # time constants changed while the simulation runs: inertia of a machine, a time constant of its exciter
+        ss.add('Alter', dict(idx='AT0', model='GENROU', dev=ss.GENROU.idx.v[0], src='M', attr='v', method='*', amount=1.0,
+                             t=-1, u=0))
+        ss.add('Alter', dict(idx='AT1', model='EXDC2', dev=ss.EXDC2.idx.v[0], src='TA', attr='v', method='*', amount=1.0,
+                             t=-1, u=0))
         ss.setup()
         systems.quiet_tds(ss)
     assert ss.PFlow.run()
@@ -48,13 +55,37 @@ SCHEDULES = {
     'trip': [('toggle', 0, 0.1)],
     'trip+reclose': [('toggle', 0, 0.1), ('toggle', 1, 0.2)],
     'fault': [('fault', 0, 0.1, 0.15)],
+    # a time constant of a differential equation altered during the run (by an Alter device; in the resumed
+    # executions additionally through Model.alter between the two segments)
+    'alterT': [('alterT', 0, 0.1, 2.0)],
+    'alterT2': [('alterT', 0, 0.1, 0.6), ('alterT', 1, 0.1, 3.0)],
 }
+
+
+def t_ref(ss):
+    """Time constants in effect, read from the parameters of the models (not from dae.Tf)."""
+    T = np.ones(ss.dae.n)
+    for mdl in ss.exist.tds.values():
+        if mdl.n == 0:
+            continue
+        for st in mdl.states.values():
+            if st.t_const is not None and len(st.a):
+                T[st.a] = st.t_const.v
+    return T
 
 
 def apply_schedule(ss, name, sysname):
     k0 = 0 if sysname == 'smib' else ss.Toggle.n - 2
     for ev in SCHEDULES[name]:
-        if ev[0] == 'toggle':
+        if ev[0] == 'alterT':
+            names = [str(x) for x in ss.Alter.idx.v]
+            if 'AT%d' % ev[1] not in names:
+                continue         # smib has one alterable time constant only
+            i = names.index('AT%d' % ev[1])
+            ss.Alter.t.v[i] = ev[2]
+            ss.Alter.amount.v[i] = ev[3]
+            ss.Alter.u.v[i] = 1
+        elif ev[0] == 'toggle':
             i = k0 + ev[1]
             if sysname == 'smib':
                 ss.Toggle.dev.v[i] = 'L3'
@@ -78,7 +109,7 @@ class Steps(Part):
 
     def describe(self, tier):
         k = 1 if tier == 'quick' else 2
-        return (f'systems smib (GENCLS) and kundur_full; schedules {list(SCHEDULES)}; method x fixt x g_scale x honest x tstep in '
+        return (f'systems smib (GENCLS) and kundur_full; schedules {list(SCHEDULES)} (alterT: time constants changed by Alter devices and, in resumed runs, by Model.alter between segments; the rule is judged with the time constants of the parameters, not dae.Tf); method x fixt x g_scale x honest x tstep in '
                 f'(1/30, 0.01); forced rejections: all subsets of size <= {k} of the first {self.K} step calls; tf = 0.4 s; each '
                 f'configuration also interrupted at 0.2 s and resumed (without and with one forced rejection after the resume)')
 
@@ -193,7 +224,10 @@ class Steps(Part):
             dae.g[:] = g_keep
             tds.niter = niter_keep
             n = dae.n
-            Tf = np.array(dae.Tf)
+            Tf = t_ref(ss)
+            if not np.array_equal(Tf, np.array(dae.Tf)):
+                bad('integrator_time_constants_differ_from_parameters', f'at t = {t!r}: dae.Tf differs from the time constants '
+                    f'of the model parameters at states {[dae.x_name[i] for i in np.flatnonzero(Tf != np.array(dae.Tf))[:4]]}')
             if trapz:
                 q = Tf * (x1 - x0) - 0.5 * h * (f1 + f0_used)
             else:
@@ -228,6 +262,13 @@ class Steps(Part):
                 ok = tds.run(no_summary=True)
                 n_first = len(dae.ts.t)
                 last_first = (float(dae.ts.t[-1]), np.array(dae.ts.x[-1]).copy()) if n_first else None
+                if case['sched'].startswith('alterT'):
+                    # second channel: the public alteration call between two segments
+                    if case['sys'] == 'smib':
+                        ss.GENCLS.alter('M', 'GEN', 1.7 * float(ss.GENCLS.M.v[0]))
+                    else:
+                        ss.GENROU.alter('M', ss.GENROU.idx.v[1], 0.5 * float(ss.GENROU.get('M', ss.GENROU.idx.v[1], 'vin')))
+                        ss.TGOV1.alter('T1', ss.TGOV1.idx.v[0], 2.5 * float(ss.TGOV1.T1.v[0]))
                 c.tf = 0.4
                 ok = tds.run(no_summary=True) and ok
                 if last_first is not None and len(dae.ts.t) >= n_first:
